@@ -132,7 +132,7 @@ var meta = map[string]*propMeta{
 		EvalsAre: "probe comparisons (used instance vs fresh instance)",
 	},
 	"C12": {
-		Level: "exploration", Race: true, QuickRuns: 4000, ThoroughRuns: 100000, ColdQuick: 160, ColdThorough: 3200,
+		Level: "exploration", Race: true, QuickRuns: 3000, ThoroughRuns: 100000, ColdQuick: 160, ColdThorough: 3200,
 		Rule: "one run = 1..4 shared read-only zoo values (incl. cyclic graphs), one shared type map + name map, N = 2..64 caller tasks each driving its own Serializer or Encoder+Decoder (constructed directly, or obtained from shared pools of size 0..8 and returned) through a drawn script of 1..6 ops {ToBytes, ToObject, WriteTo+ReadFrom, 2-value stream}; all executed under the seeded cooperative scheduler (random / round-robin / PCT, mean quantum 1..100 statements, optional stalls) in a -race build whose hand-off is hidden from the detector. Oracles: every op result equals the result of the same op run alone on a fresh instance (bytes / canonical value rendering incl. pointer identity / masked error text), zero race reports, shared inputs and maps unchanged. A run is non-trivial when at least one context switch happened inside library code; distinct = distinct scheduling fingerprints.",
 		Assumptions: []string{"a result mismatch that also shows when the same scripts run strictly one task after another is a reuse defect (C11), counted as a probe and not reported under C12",
 			"conflicts are found only on paths the scripts execute; the statement's static clause (no write to package-level state anywhere reachable) is not decided by this technique",
@@ -142,7 +142,7 @@ var meta = map[string]*propMeta{
 		EvalsAre: "simulated runs",
 	},
 	"C14": {
-		Level: "exploration", QuickRuns: 4000, ThoroughRuns: 60000, MemLimitKB: 6 << 20,
+		Level: "exploration", QuickRuns: 3200, ThoroughRuns: 60000, MemLimitKB: 6 << 20,
 		Rule: "one run = a valid stream of 1..4 seeded zoo values produced by the real encoder x one of 7 documented decode entry points x a drawn type map (complete / empty / partial / shuffled); the transport then delivers (a) the undamaged stream, (b) EVERY prefix of it ended by EOF and by a non-EOF reset (all cut offsets; strided only above 1200/6000 bytes), (c) 24 (quick) / 64 (thorough) drawn structure-aware damage plans of 1..3 faults (flip, set-to-tag, drop, dup, swap, insert, noise) biased to the offsets where the encoder started a write. evaluations = damaged decodes. A run is non-trivial when a fault changed the delivered stream; distinct = distinct (entry point, type-map kind, valid stream hash).",
 		Assumptions: []string{"time is measured in executed library statements (instrumented copy), memory with runtime/metrics /gc/heap/allocs:bytes; budgets are 100x (time) and 30x + 1 MiB (memory) the largest per-byte ratio measured on 400 undamaged streams in the same process, clamped to fixed ceilings",
 			"workers run under ulimit -v 6 GiB and a wall-clock watchdog; a worker death is attributed to the run in flight and must reproduce from (seed, run) before it is reported"},
